@@ -297,6 +297,90 @@ def scenario_part(ctx: vlib.Ctx):
         scenarios.dispose(sc)
 
 
+def directed_part(ctx: vlib.Ctx):
+    """round 7, directed and inside the Coq grammar: Literal types that list an int and the bool comparing equal to it (both orders, at depth),
+    Optional fields with falsy non-None defaults holding None, Optional items of a NamedTuple held by a nullable field.  Correspondence with
+    TyModel (pk, uk) and the round-trip oracle, which compares the concrete classes recursively (gen.same: True is not 1)"""
+    from harness import gen, tycorr, tyoracle
+    cases, bad, log = tycorr.run_directed(ctx, "c01_r7", ctx.budget(4, 24))
+    tyoracle.report_corr(ctx, "TyModel (pk, uk) vs BasicEncoder/BasicDecoder and to_dict/from_dict on the directed schemas (int/bool Literal members, "
+                              "None in Optional fields with falsy defaults, Optional items of NamedTuples in nullable holders)", cases, bad, log)
+    for c in cases:
+        if c["kind"] != "enc":
+            continue
+        t, fam, v = c["t"], c["fam"], c["value"]
+        ctx.count((t.key(), repr(v), c.get("entry", "")))
+        if c.get("entry") == "mixin":
+            entry, f = "mixin_roundtrip", (lambda: type(v).from_dict(v.to_dict()))
+        else:
+            entry, f = "codec_roundtrip", (lambda: c["dec_o"].decode(c["enc_o"].encode(v)))
+        try:
+            back = f()
+            ok = gen.same(back, v)
+            obs = "ok:" + gen.py_src(back)
+        except Exception as e:
+            ok = False
+            obs = f"exc:{type(e).__name__}"
+        if not ok:
+            ctx.fail(f"{gen.py_ann(t)}: {entry} of {gen.py_src(v)[:200]} gives {obs[:200]}",
+                     {"entry": entry, "source": fam.source(), "type": gen.py_ann(t), "input_src": gen.py_src(v),
+                      "observed": obs, "expected": "ok:" + gen.py_src(v)}, {"kind": "roundtrip"})
+
+
+BASELINE_PRELUDE = ("from dataclasses import dataclass, field\nfrom datetime import date\nfrom typing import Generic, List, Optional, TypeVar\n"
+                    "from mashumaro import DataClassDictMixin\nfrom mashumaro.config import BaseConfig\nS = TypeVar('S')\nT = TypeVar('T')\n")
+
+
+def baseline_part(ctx: vlib.Ctx):
+    """round 7, directed and deterministic (consumes no randomness): three shapes on which the UNCHANGED library breaks the round trip
+    (known findings, each with controls that must pass):
+    (a) type variables re-ordered through inheritance: class B(A[S, T], Generic[T, S]) -- B[x, y] means T=x, S=y
+    (b) a generic class given an argument that mentions the SAME TypeVar object it binds: Box[List[T]] inside Generic[T], or the swap A[T, S]
+        of class A(Generic[S, T]) -- the substitution T -> List[T] / S -> T -> S is applied again to its own result (RecursionError)
+    (c) forbid_extra_keys with an init=False field: to_dict writes the field, from_dict rejects its key"""
+    from harness import gen
+    A = BASELINE_PRELUDE + "@dataclass\nclass A(Generic[S, T], DataClassDictMixin):\n    s: S\n    t: T\n"
+    BOX = BASELINE_PRELUDE + "@dataclass\nclass Box(Generic[T], DataClassDictMixin):\n    item: T\n"
+    scen = [
+        # (source, type expression, value sources, signature kind)
+        (A + "@dataclass\nclass B(A[S, T], Generic[S, T]):\n    pass\n@dataclass\nclass C(B[int, date]):\n    pass\n", "C", ["C(1, date(2020, 1, 2))"], "roundtrip"),
+        (A + "@dataclass\nclass B(A[S, T]):\n    pass\n@dataclass\nclass C(B[int, date]):\n    pass\n", "C", ["C(1, date(2020, 1, 2))"], "roundtrip"),
+        (A + "@dataclass\nclass B(A[T, S], Generic[S, T]):\n    u: S\n@dataclass\nclass C(B[int, date]):\n    pass\n", "C", ["C(date(2020, 1, 2), 1, 5)"], "generic-typevar-capture"),
+        (A + "@dataclass\nclass B(A[S, T], Generic[T, S]):\n    pass\n@dataclass\nclass C(B[date, int]):\n    pass\n", "C", ["C(1, date(2020, 1, 2))"], "generic-reordered-typevars"),
+        (A + "@dataclass\nclass B(A[S, T], Generic[T, S]):\n    pass\n", "B[date, int]", ["B(1, date(2020, 1, 2))"], "generic-reordered-typevars"),
+        (BOX + "@dataclass\nclass H(Generic[S], DataClassDictMixin):\n    b: Box[List[S]]\n", "H[int]", ["H(Box([1, 2]))"], "roundtrip"),
+        (BOX + "@dataclass\nclass H(Generic[T], DataClassDictMixin):\n    b: Box[T]\n", "H[int]", ["H(Box(1))"], "roundtrip"),
+        (BOX, "dataclass(__import__('types').new_class('H', (Generic[T], DataClassDictMixin), {}, lambda ns: ns.update(__annotations__={'b': Box[List[T]]})))", [], "generic-typevar-capture"),
+        (BASELINE_PRELUDE + "@dataclass\nclass F(DataClassDictMixin):\n    a: int\n    b: int = field(init=False, default=3)\n", "F", ["F(1)"], "roundtrip"),
+        (BASELINE_PRELUDE + "@dataclass\nclass F(DataClassDictMixin):\n    a: int\n    b: int = field(init=False, default=3)\n    class Config(BaseConfig):\n        forbid_extra_keys = True\n",
+         "F", ["F(1)"], "forbid-extra-keys-init-false"),
+    ]
+    from mashumaro.codecs.basic import BasicDecoder, BasicEncoder
+    for src, tsrc, vals, kind in scen:
+        ctx.count(("baseline", src, tsrc))
+        try:
+            ns = gen.build_module(src)
+            ty = eval(tsrc, dict(ns))
+            enc, dec = BasicEncoder(ty), BasicDecoder(ty)
+        except Exception as e:
+            ctx.fail(f"{tsrc} after {src.split('TypeVar')[-1][8:200]!r} cannot be built: {type(e).__name__}",
+                     {"entry": "codec_build", "source": src, "type": tsrc, "expected": "ok"}, {"kind": kind if kind != "roundtrip" else "codec-build"})
+            continue
+        for vs in vals:
+            v = eval(vs, dict(ns))
+            for entry, f in (("mixin_roundtrip", lambda: type(v).from_dict(v.to_dict())), ("codec_roundtrip", lambda: dec.decode(enc.encode(v)))):
+                try:
+                    back = f()
+                    ok = gen.same(back, v)
+                    obs = "ok:" + gen.py_src(back)
+                except Exception as e:
+                    ok = False
+                    obs = f"exc:{type(e).__name__}"
+                if not ok:
+                    ctx.fail(f"{tsrc}: {entry} of {vs} gives {obs[:200]}",
+                             {"entry": entry, "source": src, "type": tsrc, "input_src": vs, "observed": obs, "expected": "ok:" + gen.py_src(v)}, {"kind": kind})
+
+
 def run(ctx: vlib.Ctx):
     ctx.coverage["rule"] = ("timezone leaf: every whole-minute offset in (-24h,24h) (exhaustive, distinct = offsets); "
                             "general round trip: schemas from the shared grammar generator (depth<=4, nested/recursive/mixin dataclasses, "
@@ -312,6 +396,9 @@ def run(ctx: vlib.Ctx):
     tyoracle.report_corr(ctx, "TyNtDict (pk_nd, uk_nd) vs BasicEncoder/BasicDecoder under an as_dict dialect", ncases, nbad, nlog)
     tv_part(ctx, "c01_tv", None, ctx.budget(12, 100))
     omit_part(ctx)
+    # round-7 part last (same reason)
+    directed_part(ctx)
+    baseline_part(ctx)
 
 
 def replay(rep: dict) -> int:
@@ -332,8 +419,8 @@ def replay(rep: dict) -> int:
     if rep.get("entry") == "codec_build":
         from harness import gen
         from mashumaro.codecs.basic import BasicDecoder, BasicEncoder
-        ns = gen.build_module(rep["source"])
         try:
+            ns = gen.build_module(rep["source"])
             ty = eval(rep["type"], dict(ns))
             BasicEncoder(ty)
             BasicDecoder(ty)
